@@ -84,3 +84,17 @@ Fixpoint stable (s : subs) (rm : rmap) (t : term) {struct t} : bool :=
 
 Definition stable_key (s : subs) (bounded trait_ : term) : bool :=
   stable s (reverse_map s) bounded && stable s (reverse_map s) trait_.
+
+(* well-formed substitutions, decidable: one entry per key, keys are parameters, Expr
+   values are expressions (what `is_superset` builds on well-sorted input; the harness
+   evaluates this on every substitution the implementation reports) *)
+Fixpoint nodupb (l : list string) : bool :=
+  match l with
+  | [] => true
+  | x :: r => negb (existsb (String.eqb x) r) && nodupb r
+  end.
+
+Definition wf_subsb (s : subs) : bool :=
+  nodupb (map fst s) &&
+  forallb (fun pv => is_param_ident (fst pv) &&
+                     match snd pv with VExpr v => is_expr_kind (tlabel v) | _ => true end) s.
